@@ -95,6 +95,25 @@ def section5():
     return "\n".join(out)
 
 
+def section0():
+    import subprocess
+    nlines = 0
+    for f in glob.glob(os.path.join(ROOT, "coq", "C*", "*.v")) + glob.glob(os.path.join(ROOT, "coq", "Lib", "*.v")):
+        nlines += sum(1 for _ in open(f, encoding="utf8", errors="replace"))
+    nth = sum(len([1 for k, _, _ in theorems(p["id"]) if k == "Theorem"]) for p in props)
+    nfix = len([l for l in kf["fixed"] if l.startswith("fixed:")])
+    nfind = len(kf["findings"])
+    metas = glob.glob(os.path.join(ROOT, "seeded", "C*", "m*", "meta.json"))
+    ncaught = sum(1 for m in metas if json.load(open(m)).get("check_result") == "caught")
+    nhist = sum(1 for m in metas if json.load(open(m)).get("history"))
+    ntr = len(glob.glob(os.path.join(ROOT, "translator*")))
+    return ("* **Numbers (generated).** %d lines of Coq in `coq/`, %d property theorems in the twenty `Props.v` files; %d translators; "
+            "%d genuine defects of the library repaired by `fix:` commits in `/repo`, %d recorded as known findings; "
+            "%d independently written breaking changes confirmed and kept under `seeded/`, %d of them reported as VIOLATION by the current "
+            "checks (%d of those only after the check had been strengthened because it first missed the change)."
+            % (nlines, nth, ntr, nfix, nfind, len(metas), ncaught, nhist))
+
+
 def section31():
     out = ["| id | translator run on every check (`gen` entries of manifest.d) | what is regenerated and what is re-proved over it (the check's `technique`) |", "|---|---|---|"]
     for pr in props:
@@ -157,7 +176,7 @@ def section11():
 def main():
     p = os.path.join(ROOT, "DESIGN.md")
     s = open(p, encoding="utf8").read()
-    for name, fn in (("SECTION31", section31), ("SECTION5", section5), ("SECTION6", section6), ("SECTION11", section11)):
+    for name, fn in (("SECTION0", section0), ("SECTION31", section31), ("SECTION5", section5), ("SECTION6", section6), ("SECTION11", section11)):
         b, e = "<!-- GENERATED:%s BEGIN -->" % name, "<!-- GENERATED:%s END -->" % name
         if b not in s or e not in s:
             print("marker missing:", name)
